@@ -937,7 +937,12 @@ class Gen:
                 content["application/x-www-form-urlencoded"] = {"schema": self.flat_object()}
                 self.features.add("body:form")
             elif k == "multipart":
-                content["multipart/form-data"] = {"schema": self.flat_object(files=True)}
+                if self.model_names and rng.random() < 0.25:
+                    # a component in two roles: multipart body here, JSON value elsewhere
+                    content["multipart/form-data"] = {"schema": {"$ref": f"#/components/schemas/{rng.choice(self.model_names)}"}}
+                    self.features.add("body:multipart_component")
+                else:
+                    content["multipart/form-data"] = {"schema": self.flat_object(files=True)}
                 self.features.add("body:multipart")
             else:
                 content["application/octet-stream"] = {"schema": {"type": "string", "format": "binary"}}
